@@ -8,7 +8,7 @@ from vlib import scenario, record, agp_model, evolvent_model as em
 LEVEL = "exploration"
 RULE = ("seeded runs on objectives with exactly known Lipschitz constant L on the unit cube and exactly known (cones, quadratic wells, linear, off-box quadratics, constants) or "
         "upper-estimated (sums of sines) global minimum, N=1..3 (quick) / 1..5 (thorough), r in (1,60], eps inside the floating-point domain, densities 2..12, two classes: "
-        "'flat' (K_N*L <= r, bound unconditional) and 'near-threshold' (r*M around K_N*L, minima placed at images of dyadic curve points midway between early trials). A run "
+        "'flat' (K_N*L <= r, bound unconditional) and 'near-threshold' (r*M around K_N*L, minima placed at images of dyadic curve points midway between early trials), plus 'hidden basin' flat objectives: a background of slope far below the floor 1 of M with one narrow cone of slope L ~ r/K_N holding the global minimum. A run "
         "QUALIFIES when it stopped by accuracy and r*M >= K_N*L held with the M in force when the last interval was selected (reconstructed by the reference model from the "
         "authenticated trial log); for qualifying runs best - f* must be below (r*M_final/2)*eps + L*2^-m*(sqrt(N+3)+sqrt(N)/2) (grid term 0 for N=1). "
         "Non-trivial: qualifying runs; distinct = (family, N, r, eps, m, trial count).")
@@ -52,6 +52,31 @@ def cases(tier, seed):
         eps = float(10 ** rng.uniform(math.log10(max(eps_lo * 1.01, 1e-6 if N == 1 else eps_lo * 1.01)), math.log10(0.3)))
         out.append({"N": N, "lower": lo, "upper": hi, "box": kind, "obj": {"fam": "scaledby", "base": obj, "scale": scale}, "r": r, "eps": eps,
                     "iters": 2000 if tier == "quick" else 3000, "m": m, "refine": False, "cls": cls})
+    # 'hidden basin': a flat objective (K_N*L <= r, bound unconditional) whose gentle slopes stay far below the floor 1 of the
+    # estimate M, with a narrow basin of slope L that contains none of the early (dyadic) trial points and holds the global minimum
+    nh = 160 if tier == "quick" else 2000
+    for i in range(nh):
+        rng = scenario.rng_for(seed, "C01H", i)
+        N = int(rng.choice([1, 1, 1, 2, 2, 3] if tier == "quick" else [1, 1, 2, 2, 3, 4]))
+        m = 10 if N == 1 else min(12, 50 // N)
+        lo, hi, kind = scenario.gen_box(rng, N)
+        r = float(rng.choice([2.0, 2.5, 3.0, 4.0, 6.0, 10.0, 20.0]))
+        L = r / KN(N) * float(rng.uniform(0.6, 1.0))
+        eps_lo = scenario.eps_floor(N, m)
+        eps_hi = min(0.02, 0.15 / (1.5 * KN(N)))
+        eps = float(10 ** rng.uniform(math.log10(max(eps_lo * 1.01, 1e-4)), math.log10(max(eps_hi, eps_lo * 1.02))))
+        w = float(rng.uniform(max(0.02, 1.5 * KN(N) * eps), 0.2))                   # half-width of the basin in cube units
+        k1 = L * float(10 ** rng.uniform(-2.5, -0.7))                               # gentle background slope
+        a1 = [float(v) for v in rng.uniform(0.1, 0.9, N)]
+        if N == 1:
+            a2 = [float(rng.uniform(0.03, 0.97))]
+        else:
+            a2 = [float(v) for v in np.clip(em.unit_evolvent(N, m).GetImage(float(rng.random())) + rng.uniform(-0.02, 0.02, N), 0.0, 1.0)]
+        d12 = math.sqrt(sum((p - q) ** 2 for p, q in zip(a1, a2)))
+        c2 = k1 * d12 - (L - k1) * w                                                # the narrow cone emerges from the background at distance ~w
+        obj = {"fam": "cones", "a": [a1, a2], "c": [0.0, c2], "K": [k1, L]}
+        out.append({"N": N, "lower": lo, "upper": hi, "box": kind, "obj": {"fam": "scaledby", "base": obj, "scale": 1.0}, "r": r, "eps": eps,
+                    "iters": 3000, "m": m, "refine": False, "cls": "hidden"})
     return out
 
 
@@ -154,6 +179,6 @@ def finalize(obs, tier, stats):
     miss = [n for n in dims if not obs.get("qualifying_N%d" % n)]
     if miss:
         return "no qualifying run in dimension(s) %s" % miss, {}
-    if not obs.get("qualifying_threshold") or not obs.get("qualifying_flat"):
+    if not obs.get("qualifying_threshold") or not obs.get("qualifying_flat") or not obs.get("qualifying_hidden"):
         return "a scenario class never qualified", {}
     return None, {"qualifying_runs": q, "largest_gap_over_bound": obs.get("max_gap_over_bound")}
